@@ -5,6 +5,8 @@
 import UnytModel.AliasFlow
 import UnytModel.Generated.C18Alias
 import UnytModel.Ref.C18Alias
+import UnytModel.Generated.C18AliasArray
+import UnytModel.Ref.C18
 
 namespace Unyt.C18.Alias
 open Unyt.AliasFlow
@@ -164,6 +166,43 @@ theorem array_functions_leave_inputs_intact
     (hnot : (r.name, p) ∉ Ref.C18Alias.targets) (trace : List (Nat × Nat)) (h0 : Nat → Nat) :
     (run (flatOf Generated.C18Alias.table r) trace (init r.params h0)).heap k = h0 k :=
   clean_table_leaves_inputs_intact _ _ live_table_is_clean r hr p k hk hnot trace h0
+
+/-! ## unyt/array.py: methods of unyt_array / unyt_quantity and the module-level functions -/
+
+theorem array_verdicts_are_reviewed : verdicts Generated.C18AliasArray.table = Ref.C18Alias.reviewedArray := by decide +kernel
+
+theorem array_table_is_clean : cleanB Generated.C18AliasArray.table Ref.C18Alias.targetsArray = true := by decide +kernel
+
+/-- no documented-copying method (hand-written list `Ref.C18.copyingMethods`) has ANY parameter other than `out` / a
+    handed-on `kwargs` among the reviewed targets — in particular never `self`, never the other operand -/
+theorem copying_methods_never_target_inputs :
+    (Ref.C18Alias.targetsArray.filter fun (m, p) => decide (m ∈ Ref.C18.copyingMethods) && p != "out" && p != "kwargs") = [] := by
+  decide +kernel
+
+/-- **copying_methods_leave_all_inputs_intact**: for every documented-copying method that array.py defines (to, in_units,
+    in_base, in_cgs, in_mks, to_value, to_equivalent, copy, __getitem__, __pow__, dot, take ...), EVERY parameter —
+    `self`, the unit / the other operand / the index ... — other than `out` and a handed-on `**kwargs`, and every execution
+    of the method with its callees (other methods, property getters, module helpers) inlined: the parameter's buffer is
+    never written.  (Views are followed: `.d`, `.ndview`, slicing, `np.asarray(x)`, `unyt_array(x)`; a result that IS the
+    input's buffer and is then offset / scaled in place — the C18-c shape — would be flagged.) -/
+theorem copying_methods_leave_all_inputs_intact
+    (r : Routine) (hr : r ∈ Generated.C18AliasArray.table) (hm : r.name ∈ Ref.C18.copyingMethods)
+    (p : String) (k : Nat) (hk : idxOf? r.params p = some k) (hout : p ≠ "out") (hkw : p ≠ "kwargs")
+    (trace : List (Nat × Nat)) (h0 : Nat → Nat) :
+    (run (flatOf Generated.C18AliasArray.table r) trace (init r.params h0)).heap k = h0 k := by
+  apply clean_table_leaves_inputs_intact _ _ array_table_is_clean r hr p k hk
+  intro hmem
+  have h := copying_methods_never_target_inputs
+  have : (r.name, p) ∈ (Ref.C18Alias.targetsArray.filter fun (m, p) =>
+      decide (m ∈ Ref.C18.copyingMethods) && p != "out" && p != "kwargs") := by
+    simp only [List.mem_filter, Bool.and_eq_true, decide_eq_true_eq, bne_iff_ne, ne_eq]
+    exact ⟨hmem, ⟨hm, hout⟩, hkw⟩
+  rw [h] at this
+  cases this
+
+/-- non-vacuity: `unyt_array.in_units` is in the table and on the list, `self` is its first parameter -/
+example : ((Generated.C18AliasArray.table.find? "unyt_array.in_units").map fun r => idxOf? r.params "self") = some (some 0)
+    ∧ "unyt_array.in_units" ∈ Ref.C18.copyingMethods := by decide +kernel
 
 /-- non-vacuity: `histogram`'s data argument `a` meets the hypotheses -/
 example : (Generated.C18Alias.table.find? "histogram").isSome = true
